@@ -198,7 +198,10 @@ def run_metrics(pnls, types, fees, holds, balances, start=10000.0, t0=1609459200
         def __init__(self, d): self.to_dict = d
     w = session('futures', leverage=1, balance=start)
     store.app.starting_time = t0
-    trades = [T_({'id': j, 'type': types[j], 'PNL': pnls[j], 'fee': fees[j], 'holding_period': holds[j], 'size': 1.0, 'entry_price': 100.0})
+    # trades of two routes overlap: the opening times are not monotone in the order of the list (the PnL sequence is the list order)
+    trades = [T_({'id': j, 'type': types[j], 'PNL': pnls[j], 'fee': fees[j], 'holding_period': holds[j], 'size': 1.0, 'entry_price': 100.0,
+                  'opened_at': t0 + 60000 * (((j * 7 + 3) % 11) * 100), 'closed_at': t0 + 60000 * (((j * 7 + 3) % 11) * 100 + 50 + j),
+                  'symbol': 'BTC-USDT' if j % 2 else 'ETH-USDT', 'exchange': 'Sandbox', 'strategy_name': 'S'})
               for j in range(len(pnls))]
     import warnings
     with warnings.catch_warnings():
